@@ -451,7 +451,8 @@ class C04(common.Prop):
         file, meta = self.encode(case)
         fl = list(file)
         pg.set_memo(case["memo"], other_bytes=self.other, same_bytes=fl)
-        r, pulled = pg.impl_read(fl, "bytes" if case["src"] == "bytes" else "stream", case["args"])
+        at = pg.ARG_TYPES[(len(fl) + sum(v for v in (case["args"] or {}).values() if isinstance(v, int))) % len(pg.ARG_TYPES)]
+        r, pulled = pg.impl_read(fl, "bytes" if case["src"] == "bytes" else "stream", case["args"], argtype=at, limit=meta.get("F") if isinstance(meta, dict) and meta.get("F") is not None else 10 ** 9)
         if r[0] == "ok":
             r[1].pop("data_dtype", None)
         out = {"read": pg.strip_err(r), "pulled": pulled if r[0] == "ok" else None}
